@@ -198,8 +198,12 @@ func ParseFlags(params []string, args *Arguments) (*FlagsT, []string, error) {
 // ParseFlags - this instance of ParseFlags is a wrapper function for ParseFlags (above) so you can use inside your
 // lang.Process.Parameters object
 func (p *Parameters) ParseFlags(args *Arguments) (flags *FlagsT, additional []string, err error) {
+	// ParseFlags (above) rewrites alias flags in the slice it is given, so it must
+	// not be handed the shared slice while only the read lock is held.
 	p.mutex.RLock()
-	defer p.mutex.RUnlock()
+	params := make([]string, len(p.params))
+	copy(params, p.params)
+	p.mutex.RUnlock()
 
-	return ParseFlags(p.params, args)
+	return ParseFlags(params, args)
 }
